@@ -14,6 +14,7 @@ import vcommon as V
 
 sys.path.insert(0, os.path.join(V.VERIF, "gen"))
 import C08_gen as G  # noqa
+import C08_gen2 as G2  # noqa
 
 
 def enum_codes(path):
@@ -610,6 +611,11 @@ def gen_cases(ctx):
                                (G.instance([]), [], True),
                                (G.instance([e]), [e], False),
                                (G.instance([]).replace("></t:r>", ">1<t:e/>2</t:r>"), [e], False)]))
+    # ---- 8. deep instances over recursive types (per-depth content-model state of the scanners) --------------
+    cases += G2.deep_cases(rng, thorough)
+    # ---- 9. substitution groups over type chains; 10. attribute wildcard intersection / union --------------------
+    cases += G2.subst_cases(rng, thorough)
+    cases += G2.attwild_cases(rng, thorough)
     return cases
 
 
@@ -667,7 +673,7 @@ def run(ctx):
                   "strict_penalty": r.get("strict_penalty", [False] * r.get("n", 0)),
                   "schema_expect": tuple(r["schema_expect"]) if r.get("schema_expect") else None,
                   "info": r.get("info", {}), "particle": r.get("particle"), "words": r.get("words"),
-                  "attr": r.get("attr"), "expect_kids": r.get("expect_kids")}]
+                  "attr": r.get("attr"), "attwild": r.get("attwild"), "expect_kids": r.get("expect_kids")}]
     else:
         cases = gen_cases(ctx)
     lines = [c["request"] for c in cases]
@@ -685,7 +691,7 @@ def run(ctx):
     kinds, codes_seen = {}, {}
     n_valid = n_invalid = 0
     divergences, shared, dis = [], [], []
-    known = {"C08-max0": 0, "C08-emptychoice": 0, "C08-emptyns": 0, "C08-prohibited": 0, "C08-nilfalse": 0, "C08-counting": 0, "C08-nilchildren": 0}
+    known = {"C08-max0": 0, "C08-emptychoice": 0, "C08-emptyns": 0, "C08-prohibited": 0, "C08-nilfalse": 0, "C08-counting": 0, "C08-nilchildren": 0, "C08-attwild-anylist": 0}
     prohibited_code = [k for k, v in names["V"].items() if v == "ProhibitedAttributePresent"][0]
     nviol = 0
     code_dis = [0]
@@ -706,7 +712,7 @@ def run(ctx):
         s0, s1, res = parse_impl(il)
         base = {"kind": case["kind"], "request": case["request"], "n": case["n"], "info": case.get("info"),
                 "strict_penalty": case.get("strict_penalty"), "schema_expect": case.get("schema_expect"),
-                "particle": case.get("particle"), "attr": case.get("attr"), "words": case.get("words"), "expect_kids": case.get("expect_kids"),
+                "particle": case.get("particle"), "attr": case.get("attr"), "attwild": case.get("attwild"), "words": case.get("words"), "expect_kids": case.get("expect_kids"),
                 "impl": il[:2000], "model": ml[:2000]}
         if case.get("schema_expect") is not None:
             ctx.count()
@@ -721,6 +727,14 @@ def run(ctx):
                 bad = "scanners/APIs disagree on schema errors"
             if bad:
                 viol("schema", dict(base, what=bad, s0=s0, s1=s1))
+            continue
+        if case.get("attwild") and ml.startswith("X"):
+            # the model finds the combination of attribute wildcards not expressible (3.10.6): the schema must be rejected
+            ctx.count()
+            ctx.distinct(("attwild-x", case["request"][:300]))
+            if s0 == "ok" or s1 == "ok":
+                viol("schema", dict(base, what="attribute wildcard intersection/union is not expressible but the schema is "
+                                    "loaded without error", s0=s0, s1=s1))
             continue
         if s0 != "ok" or s1 != "ok":
             viol("schema", dict(base, what="schema rendered from a valid typed schema model reported as erroneous",
@@ -737,7 +751,7 @@ def run(ctx):
             off_codes = res[k][4] if len(res[k]) > 4 else None
             # the DFAContentModel model (third verdict of a cm answer) describes the content model as built with
             # schema-full-checking off; compare it with the full-checking-off runs
-            has_dfa = (not case.get("attr")) and len(mt[k]) >= 3 and mt[k][2] in "VIF" and mt[0][0] in "VI"
+            has_dfa = (not case.get("attr")) and codes != "DIS" and len(mt[k]) >= 3 and mt[k][2] in "VIF" and mt[0][0] in "VI"
             if has_dfa and mt[k][2] == "F":
                 viol("model-fuel", dict(base, instance=k, what="DFA model ran out of fuel"), no_input=True)
                 continue
@@ -843,7 +857,7 @@ def run(ctx):
                                             "from the governing declaration", got=kids, want=ek[k]))
                 continue
             word = case.get("words")[k] if case.get("words") else None
-            d = dict(base, instance=k, word=word, impl_valid=iv, model_valid=mv_eff, spec_valid=sv_eff, codes=codes)
+            d = dict(base, instance=k, word=word, impl_valid=iv, model_valid=mv_eff, spec_valid=sv_eff, codes=codes, mtok=mt[k])
             if iv != mv_eff:
                 divergences.append(d)
             else:
@@ -862,6 +876,12 @@ def run(ctx):
         if (d["info"] or {}).get("nilfalse") and d["word"] and not d["impl_valid"] and d["spec_valid"] \
                 and set(d["codes"].split(",")) == {nil_code} and ctx.find_known("C08-nilfalse"):
             known["C08-nilfalse"] += 1
+            continue
+        if d.get("attwild") and len(d["mtok"]) >= 3 and d["model_valid"] == d["spec_valid"] \
+                and d["mtok"][2] == ("v" if d["impl_valid"] else "i") and ctx.find_known("C08-attwild-anylist"):
+            # the implementation agrees with the faithful (unrepaired) evaluation of the wildcard combination, the
+            # repaired model agrees with the Spec: exactly the defect switch of C08-attwild-anylist
+            known["C08-attwild-anylist"] += 1
             continue
         if d["kind"] == "xsinil-True-true" and d["word"] and len(d["word"]) <= 2 and d["impl_valid"] and not d["spec_valid"] \
                 and ctx.find_known("C08-nilchildren"):
@@ -909,6 +929,10 @@ def run(ctx):
              "C08-nilchildren": "an element with xsi:nil=\"true\" and element children is accepted when the children fit the "
                                 "content model: SchemaValidator::fNil is one flag for all open elements and is cleared when a "
                                 "child element ends (proposed repair: fixes/C08-nil-children.patch)",
+             "C08-attwild-anylist": "intersecting an attribute wildcard ##any with a namespace-list wildcard (local anyAttribute "
+                                    "+ attribute group, or two groups) yields a wildcard that allows nothing: "
+                                    "attWildCardIntersection copies the type but not the namespace list (proposed repair: "
+                                    "fixes/C08-attwildcard-any-list.patch)",
              "C08-prohibited": "an attribute declared with use=prohibited (which corresponds to no attribute use at all) is "
                                "rejected with ProhibitedAttributePresent even when the type's attribute wildcard allows it"}
     for fid, nhit in known.items():
